@@ -97,8 +97,7 @@ Record Inv (g : graph) (n : nat) (s : st) : Prop := {
   i_perm : Permutation (everything s) (seq 0 (length g));
   i_running : length (running s) <= n;
   i_pc : pc s = PDone <-> length (completed s) = length g;
-  i_drain : pc s = PDrain -> remaining s = [];
-  i_quiet : dead s = [] -> pc s = PLoop -> inflight s = [] ->
+  i_quiet : dead s = [] -> pc s <> PDone -> inflight s = [] ->
             filter (runnable g (completed s)) (remaining s) = [] }.
 
 Lemma Inv_range g n s : Inv g n s -> forall t, In t (everything s) <-> t < length g.
@@ -133,7 +132,6 @@ Proof.
     apply Permutation_sym. apply remove_all_split; auto.
   - lia.
   - rewrite pc_after_done. simpl. split; [intros [H|H]; auto; discriminate|auto].
-  - intros H. apply pc_after_other in H; discriminate.
   - intros _ _ H. unfold inflight in H; simpl in H. rewrite map_fst_handle, !app_nil_r in H.
     unfold remove_all. apply filter_sub_nil. apply (filter_nil_firstn _ _ n Hn). exact H.
 Qed.
@@ -186,6 +184,21 @@ Qed.
 Lemma Inv_remaining_nodup g n s : Inv g n s -> NoDup (remaining s).
 Proof. intros I. pose proof (Inv_nodup _ _ _ I) as ND. unfold everything in ND. apply NoDup_app_l in ND. exact ND. Qed.
 
+Lemma empty_graph_remaining g n s : Inv g n s -> length g = 0 -> remaining s = [].
+Proof.
+  intros I E. pose proof (Inv_length _ _ _ I) as L. unfold everything in L. rewrite app_length in L.
+  destruct (remaining s); auto. simpl in L. lia.
+Qed.
+
+(* popping with nb_tasks = len(tasks) takes every runnable task: nothing runnable is left behind when nothing was popped *)
+Lemma pop_all_quiet g n s done : Inv g n s ->
+  pop_runnable g (remaining s) done (length g) = [] -> filter (runnable g done) (remaining s) = [].
+Proof.
+  intros I H. destruct (length g) eqn:E.
+  - rewrite (empty_graph_remaining g n s I E). reflexivity.
+  - apply (filter_nil_firstn _ _ (S n0)); [lia|exact H].
+Qed.
+
 Lemma step_Inv g n sof s m s' : 1 <= n -> Inv g n s -> step g n sof s m = Some s' -> Inv g n s'.
 Proof.
   intros Hn I Hs. pose proof (Inv_remaining_nodup _ _ _ I) as NDr.
@@ -201,17 +214,20 @@ Proof.
         pose proof (remove_all_split p (remaining s) NDr NDp Psub) as P. fold p. perm_solve.
       * apply (i_running _ _ _ I).
       * rewrite pc_after_done. split; [intros [H|H]; auto; discriminate|auto].
-      * intros H. apply pc_after_other in H; discriminate.
       * intros _ _ H. unfold inflight in H; simpl in H. rewrite map_app, map_fst_handle in H.
         apply app_eq_nil in H as [H _]. apply app_eq_nil in H as [_ H].
         unfold remove_all. apply filter_sub_nil. apply (filter_nil_firstn _ _ n Hn). exact H.
-    + pose proof (i_drain _ _ _ I Epc) as Er.
+    + set (done := t :: completed s). set (p := pop_runnable g (remaining s) done (length g)).
+      assert (NDp : NoDup p) by (apply pop_nodup; auto).
+      assert (Psub : forall x, In x p -> In x (remaining s)) by (intros x; apply pop_sub).
       constructor; simpl.
-      * eapply perm_trans; [|apply (i_perm _ _ _ I)]. perm_simpl. rewrite Ec, Er. perm_solve.
+      * eapply perm_trans; [|apply (i_perm _ _ _ I)]. perm_simpl. rewrite Ec.
+        pose proof (remove_all_split p (remaining s) NDr NDp Psub) as P. fold p. perm_solve.
       * apply (i_running _ _ _ I).
       * rewrite pc_after_done. split; [intros [H|H]; auto; discriminate|auto].
-      * auto.
-      * intros _ H. apply pc_after_other in H; discriminate.
+      * intros _ _ H. unfold inflight in H; simpl in H. rewrite map_app, map_fst_skip in H.
+        apply app_eq_nil in H as [H _]. apply app_eq_nil in H as [_ H].
+        unfold remove_all. apply filter_sub_nil. apply (pop_all_quiet g n s done I H).
   - (* MTake *)
     destruct (poolq s) as [|[t' j] q] eqn:Ep; try discriminate.
     destruct (Nat.eqb_spec t t') as [<-|]; simpl in Hs; try discriminate.
@@ -221,7 +237,6 @@ Proof.
     + eapply perm_trans; [|apply (i_perm _ _ _ I)]. perm_simpl. rewrite Ep. perm_solve.
     + lia.
     + apply (i_pc _ _ _ I).
-    + apply (i_drain _ _ _ I).
     + intros _ _ H0. unfold inflight in H0; simpl in H0. apply app_eq_nil in H0 as [_ H0]. discriminate.
   - (* MFinish *)
     destruct (running_mode s t) as [md|] eqn:Er; try discriminate.
@@ -233,20 +248,23 @@ Proof.
       perm_solve.
     + pose proof (remove_running_length t (running s)). pose proof (i_running _ _ _ I). lia.
     + apply (i_pc _ _ _ I).
-    + apply (i_drain _ _ _ I).
     + intros _ _ H. unfold inflight in H; simpl in H. apply app_eq_nil in H as [_ H]. apply app_eq_nil in H as [_ H].
       apply app_eq_nil in H as [_ H]. discriminate.
   - (* MFlag *)
     inversion Hs; subst s'; clear Hs. destruct I. constructor; simpl; auto.
   - (* MInterrupt *)
     destruct (pc s) eqn:Epc; try discriminate. inversion Hs; subst s'; clear Hs.
+    set (p := pop_runnable g (remaining s) (completed s) (length g)).
+    assert (NDp : NoDup p) by (apply pop_nodup; auto).
+    assert (Psub : forall x, In x p -> In x (remaining s)) by (intros x; apply pop_sub).
     constructor; simpl.
     + eapply perm_trans; [|apply (i_perm _ _ _ I)]. perm_simpl.
-      perm_solve.
+      pose proof (remove_all_split p (remaining s) NDr NDp Psub) as P. fold p. perm_solve.
     + apply (i_running _ _ _ I).
     + rewrite pc_after_done. split; [intros [H|H]; auto; discriminate|auto].
-    + auto.
-    + intros _ H. apply pc_after_other in H; discriminate.
+    + intros _ _ H. unfold inflight in H; simpl in H. rewrite map_app, map_fst_skip in H.
+      apply app_eq_nil in H as [H _]. apply app_eq_nil in H as [_ H].
+      unfold remove_all. apply filter_sub_nil. apply (pop_all_quiet g n s (completed s) I H).
   - (* MDie *)
     destruct (running_mode s t) as [md|] eqn:Er; try discriminate. inversion Hs; subst s'; clear Hs.
     apply find_running_In in Er.
@@ -256,7 +274,6 @@ Proof.
       perm_solve.
     + pose proof (remove_running_length t (running s)). pose proof (i_running _ _ _ I). lia.
     + apply (i_pc _ _ _ I).
-    + apply (i_drain _ _ _ I).
     + intros H. discriminate.
 Qed.
 
@@ -319,9 +336,7 @@ Proof.
   { unfold everything. rewrite Q, Hdead. simpl. rewrite app_nil_r. auto. }
   assert (Hrem : remaining s <> []).
   { intro E. apply Hpc. apply (i_pc _ _ _ I). rewrite <- (Inv_length _ _ _ I), Ev, E. auto. }
-  destruct (pc s) eqn:Epc; [| |congruence].
-  2:{ apply Hrem. apply (i_drain _ _ _ I Epc). }
-  pose proof (i_quiet _ _ _ I Hdead Epc Q) as F.
+  pose proof (i_quiet _ _ _ I Hdead Hpc Q) as F.
   destruct (exists_min rk (remaining s) Hrem) as [m [Hm Hmin]].
   assert (Hmt : m < length g).
   { apply (Inv_range _ _ _ I). rewrite Ev. apply in_or_app. auto. }
@@ -364,7 +379,11 @@ Proof.
       { apply remove_all_length; auto. apply pop_nodup; auto. intros x; apply pop_sub. }
       rewrite app_length, map_length, Ec. simpl. split; [lia|].
       unfold pc_after. destruct (Nat.eqb _ _); simpl; lia.
-    + rewrite Ec. simpl. split; [lia|]. unfold pc_after. destruct (Nat.eqb _ _); simpl; lia.
+    + set (p := pop_runnable g (remaining s) (t :: completed s) (length g)).
+      assert (L : length (remaining s) = length (remove_all p (remaining s)) + length p).
+      { apply remove_all_length; auto. apply pop_nodup; auto. intros x; apply pop_sub. }
+      rewrite app_length, map_length, Ec. simpl. split; [lia|].
+      unfold pc_after. destruct (Nat.eqb _ _); simpl; lia.
   - destruct (poolq s) as [|[t' j] q] eqn:Ep; try discriminate.
     destruct (Nat.eqb t t' && Nat.ltb (length (running s)) n && mode_eqb md (decide g sof s t j)); try discriminate.
     inversion Hs; subst s'; clear Hs. right. unfold weight; simpl. rewrite Ep. simpl. lia.
@@ -373,7 +392,10 @@ Proof.
     apply find_running_In in Er. pose proof (remove_running_lt t md _ Er).
     right. unfold weight; simpl. rewrite app_length. simpl. lia.
   - destruct (pc s) eqn:Epc; try discriminate. inversion Hs; subst s'; clear Hs. left.
-    unfold weight; simpl. rewrite app_length, map_length. unfold pc_after. destruct (Nat.eqb _ _); simpl; lia.
+    set (p := pop_runnable g (remaining s) (completed s) (length g)).
+    assert (L : length (remaining s) = length (remove_all p (remaining s)) + length p).
+    { apply remove_all_length; auto. apply pop_nodup; auto. intros x; apply pop_sub. }
+    unfold weight; simpl. rewrite app_length, map_length. fold p. unfold pc_after. destruct (Nat.eqb _ _); simpl; lia.
   - destruct (running_mode s t) as [md|] eqn:Er; try discriminate. inversion Hs; subst s'; clear Hs.
     apply find_running_In in Er. pose proof (remove_running_lt t md _ Er).
     right. unfold weight; simpl. lia.
@@ -530,11 +552,14 @@ Proof. unfold runnable. rewrite forallb_forall. intros H Hd. apply mem_In. auto.
 Definition deps_done (g : graph) (s : st) : Prop :=
   forall t d, In t (dispatched s) -> In d (all_deps (get_task g t)) -> In d (completed s).
 
-Lemma step_deps_done g n sof s m s' : m <> MInterrupt -> Inv g n s ->
+Lemma step_deps_done g n sof s m s' : Inv g n s ->
   deps_done g s -> step g n sof s m = Some s' -> deps_done g s'.
 Proof.
-  intros Hm I D Hs. unfold deps_done, dispatched, taken in *.
-  destruct m as [t0|t0 md|t0 r|f| |t0]; simpl in Hs; try congruence.
+  intros I D Hs. unfold deps_done, dispatched, taken in *.
+  assert (Hsub : forall t0 x, In x (map fst (remove_running t0 (running s))) -> In x (map fst (running s))).
+  { intros t0 x Hx. apply in_map_iff in Hx as [[a b] [E Hin]]. apply filter_In in Hin as [Hin _].
+    apply in_map_iff. exists (a, b); auto. }
+  destruct m as [t0|t0 md|t0 r|f| |t0]; simpl in Hs.
   - destruct (pc s) eqn:Epc; try discriminate; destruct (complq s) as [|t' q] eqn:Ec; try discriminate;
       destruct (Nat.eqb_spec t0 t') as [<-|]; try discriminate; inversion Hs; subst s'; clear Hs; simpl in *.
     + intros t d Ht Hd. rewrite map_app, map_fst_handle in Ht.
@@ -543,8 +568,12 @@ Proof.
       * right. apply (D t d); auto. rewrite ?in_app_iff. tauto.
       * change (In d (t0 :: completed s)). eapply runnable_deps; eauto. eapply pop_runnable_runnable; eauto.
       * right. apply (D t d); auto. repeat (rewrite ?in_app_iff; simpl). tauto.
-    + intros t d Ht Hd. right. apply (D t d); auto.
-      repeat (rewrite ?in_app_iff in *; simpl in * ). tauto.
+    + intros t d Ht Hd. rewrite map_app, map_fst_skip in Ht.
+      repeat (rewrite ?in_app_iff in Ht; simpl in Ht).
+      destruct Ht as [[Ht|Ht]|Ht].
+      * right. apply (D t d); auto. rewrite ?in_app_iff. tauto.
+      * change (In d (t0 :: completed s)). eapply runnable_deps; eauto. eapply pop_runnable_runnable; eauto.
+      * right. apply (D t d); auto. repeat (rewrite ?in_app_iff; simpl). tauto.
   - destruct (poolq s) as [|[t' j] q] eqn:Ep; try discriminate.
     destruct (Nat.eqb_spec t0 t') as [<-|]; simpl in Hs; try discriminate.
     destruct (Nat.ltb (length (running s)) n && mode_eqb md (decide g sof s t0 j)); try discriminate.
@@ -554,20 +583,21 @@ Proof.
     destruct (result_allowed g t0 md r); try discriminate. inversion Hs; subst s'; clear Hs; simpl in *.
     apply find_running_In in Er.
     intros t d Ht Hd. apply (D t d); auto. repeat (rewrite ?in_app_iff in *; simpl in * ).
-    assert (Hsub : forall x, In x (map fst (remove_running t0 (running s))) -> In x (map fst (running s))).
-    { intros x Hx. apply in_map_iff in Hx as [[a b] [E Hin]]. apply filter_In in Hin as [Hin _].
-      apply in_map_iff. exists (a, b); auto. }
     assert (Ht0 : In t0 (map fst (running s))) by (apply in_map_iff; exists (t0, md); auto).
-    intuition (subst; auto).
+    pose proof (Hsub t0 t). intuition (subst; auto).
   - inversion Hs; subst s'; clear Hs; simpl in *. auto.
+  - destruct (pc s) eqn:Epc; try discriminate. inversion Hs; subst s'; clear Hs; simpl in *.
+    intros t d Ht Hd. rewrite map_app, map_fst_skip in Ht.
+    repeat (rewrite ?in_app_iff in Ht; simpl in Ht).
+    destruct Ht as [[Ht|Ht]|Ht].
+    + apply (D t d); auto. rewrite ?in_app_iff. tauto.
+    + eapply runnable_deps; eauto. eapply pop_runnable_runnable; eauto.
+    + apply (D t d); auto. repeat (rewrite ?in_app_iff; simpl). tauto.
   - destruct (running_mode s t0) as [md|] eqn:Er; try discriminate. inversion Hs; subst s'; clear Hs; simpl in *.
     apply find_running_In in Er.
     intros t d Ht Hd. apply (D t d); auto. repeat (rewrite ?in_app_iff in *; simpl in * ).
-    assert (Hsub : forall x, In x (map fst (remove_running t0 (running s))) -> In x (map fst (running s))).
-    { intros x Hx. apply in_map_iff in Hx as [[a b] [E Hin]]. apply filter_In in Hin as [Hin _].
-      apply in_map_iff. exists (a, b); auto. }
     assert (Ht0 : In t0 (map fst (running s))) by (apply in_map_iff; exists (t0, md); auto).
-    intuition (subst; auto).
+    pose proof (Hsub t0 t). intuition (subst; auto).
 Qed.
 
 Lemma init_deps_done g n : deps_done g (init g n).
@@ -576,32 +606,32 @@ Proof.
   change (In d (@nil nat)). eapply runnable_deps; eauto. eapply pop_runnable_runnable; eauto.
 Qed.
 
-Lemma run_deps_done g n sof ms : forall s s', 1 <= n -> no_interrupt ms -> Inv g n s -> deps_done g s ->
+Lemma run_deps_done g n sof ms : forall s s', 1 <= n -> Inv g n s -> deps_done g s ->
   run g n sof s ms = Some s' -> deps_done g s'.
 Proof.
-  induction ms as [|m ms IH]; simpl; intros s s' Hn NI I D H.
+  induction ms as [|m ms IH]; simpl; intros s s' Hn I D H.
   - inversion H; subst; auto.
   - destruct (step g n sof s m) as [s1|] eqn:E; [|discriminate].
     apply (IH s1 s' Hn); auto.
-    + intro Hin. apply NI. right; auto.
     + eapply step_Inv; eauto.
-    + eapply step_deps_done; eauto. intro; subst. apply NI. left; auto.
+    + eapply step_deps_done; eauto.
 Qed.
 
 (* the order theorem: when a task is taken by a worker, every dependency (on-success and on-completion) has already
-   been finished by its worker and acknowledged by the main thread *)
+   been finished by its worker and acknowledged by the main thread — also after a keyboard interrupt, since the remaining
+   tasks are then submitted to be skipped in dependency order *)
 Theorem take_after_dependencies g n sof ms1 t md ms2 s d :
-  1 <= n -> no_interrupt ms1 ->
+  1 <= n ->
   run g n sof (init g n) (ms1 ++ MTake t md :: ms2) = Some s ->
   In d (all_deps (get_task g t)) ->
   count (is_main d) ms1 = 1 /\ count (is_finish d) ms1 = 1.
 Proof.
-  intros Hn NI H Hd. rewrite run_app in H.
+  intros Hn H Hd. rewrite run_app in H.
   destruct (run g n sof (init g n) ms1) as [s1|] eqn:E1; [|discriminate].
   cbn [run] in H. destruct (step g n sof s1 (MTake t md)) as [s2|] eqn:E2; [|discriminate].
   assert (I1 : Inv g n s1) by (eapply run_Inv; eauto; apply init_Inv; auto).
   assert (D1 : deps_done g s1).
-  { apply (run_deps_done g n sof ms1 (init g n) s1 Hn NI (init_Inv g n Hn) (init_deps_done g n) E1). }
+  { apply (run_deps_done g n sof ms1 (init g n) s1 Hn (init_Inv g n Hn) (init_deps_done g n) E1). }
   simpl in E2. destruct (poolq s1) as [|[t' j] q] eqn:Ep; try discriminate.
   destruct (Nat.eqb_spec t t') as [<-|]; simpl in E2; try discriminate.
   assert (Hc : In d (completed s1)).
@@ -743,14 +773,13 @@ Proof.
   split; reflexivity.
 Qed.
 
-(* after an interrupt every remaining task is queued to be skipped, whatever its dependencies *)
-Theorem interrupt_skips_remaining g n sof s s' :
-  step g n sof s MInterrupt = Some s' ->
-  remaining s' = [] /\ c_tasks_aborted (cx s') = true /\
-  forall t, In t (remaining s) -> In (t, JSkip RInterrupted) (poolq s').
+(* a keyboard interrupt raises the abort flag and leaves the normal loop; the runnable remaining tasks are queued to be
+   skipped, the others stay in [remaining] until their dependencies are completed *)
+Theorem interrupt_sets_abort g n sof s s' :
+  step g n sof s MInterrupt = Some s' -> c_tasks_aborted (cx s') = true /\ pc s' <> PLoop.
 Proof.
-  simpl. destruct (pc s); try discriminate. intros H. inversion H; subst; simpl. repeat split; auto.
-  intros t Ht. apply in_or_app. right. apply in_map_iff. exists t. auto.
+  simpl. destruct (pc s); try discriminate. intros H. inversion H; subst; simpl. split; auto.
+  unfold pc_after. destruct (Nat.eqb _ _); discriminate.
 Qed.
 
 (* ------------------------------------------------------------------ soundness of the executable well-formedness check *)
@@ -849,16 +878,16 @@ Inductive dep_path (g : graph) : nat -> nat -> Prop :=
 (* The order theorem, transitively: when a worker takes task t, every task t depends on directly or indirectly has been
    taken, finished and acknowledged, in that order, strictly before. *)
 Theorem take_after_transitive_dependencies g n sof : forall t e, dep_path g t e ->
-  forall ms1 md ms2 s, 1 <= n -> no_interrupt ms1 ->
+  forall ms1 md ms2 s, 1 <= n ->
   run g n sof (init g n) (ms1 ++ MTake t md :: ms2) = Some s ->
   occurs (is_take e) ms1 /\ occurs (is_finish e) ms1 /\ occurs (is_main e) ms1.
 Proof.
-  induction 1 as [t d Hd | t d e Hd Hp IH]; intros ms1 md ms2 s Hn NI H.
-  - destruct (take_after_dependencies g n sof ms1 t md ms2 s d Hn NI H Hd) as [A B].
+  induction 1 as [t d Hd | t d e Hd Hp IH]; intros ms1 md ms2 s Hn H.
+  - destruct (take_after_dependencies g n sof ms1 t md ms2 s d Hn H Hd) as [A B].
     destruct (run_prefix _ _ _ _ _ _ H) as [s1 E1].
     assert (Of : occurs (is_finish d) ms1) by (unfold occurs; lia).
     split; [exact (finish_after_take g n sof ms1 s1 d Hn E1 Of)|split; [exact Of|unfold occurs; lia]].
-  - destruct (take_after_dependencies g n sof ms1 t md ms2 s d Hn NI H Hd) as [A B].
+  - destruct (take_after_dependencies g n sof ms1 t md ms2 s d Hn H Hd) as [A B].
     destruct (run_prefix _ _ _ _ _ _ H) as [s1 E1].
     assert (Of : occurs (is_finish d) ms1) by (unfold occurs; lia).
     pose proof (finish_after_take g n sof ms1 s1 d Hn E1 Of) as Ot.
@@ -868,9 +897,9 @@ Proof.
     assert (Hin : In m0 (filter (is_take d) ms1)) by (rewrite Ef; left; auto).
     apply filter_In in Hin as [Hin Hm]. apply in_split in Hin as [pre [post Es]].
     destruct m0 as [|t0 md0| | | |]; simpl in Hm; try discriminate. apply Nat.eqb_eq in Hm. subst t0.
-    subst ms1. apply no_interrupt_app in NI as [NIpre _].
+    subst ms1.
     rewrite <- app_assoc in H. simpl in H.
-    destruct (IH pre md0 (post ++ MTake t md :: ms2) s Hn NIpre H) as [X [Y Z]].
+    destruct (IH pre md0 (post ++ MTake t md :: ms2) s Hn H) as [X [Y Z]].
     repeat split; apply occurs_app_l; auto.
 Qed.
 
